@@ -8,7 +8,7 @@ and `dali/driver/serial.py` (`DriverSerialBase`, `DriverLubaRs232`,
 raising/cancellable step carrying the clean-up its `finally` / `async with`
 blocks perform.  This is the REPAIRED code (F8: a cancelled Tridonic wait
 removes its `_outstanding` entry; K1: serial `send` emits EnableDeviceType;
-K3: hasseb write errors become CommunicationError); `…Old` variants keep the
+K3: hasseb write errors become CommunicationError; K6: SCI `send` flushes before the prefix too); `…Old` variants keep the
 unchanged tree's shape for the witnesses in `Props/`.
 -/
 namespace DaliVerif.Async
@@ -95,10 +95,15 @@ def seqBody (d : Driver) (out : List Act) : List Item → List Step
   | [] => [ { act := .resume, h := out } ]          -- StopIteration: return r.value
   | it :: l => { act := .resume, h := out } :: itemSteps d out it ++ seqBody d out l
 
+/-- what the serial `send` does in front of the EnableDeviceType prefix: SCI discards every stale report first
+(K6: a leftover information frame would be taken for the prefix's confirmation); LUBA confirmations name their
+frame, nothing is discarded there -/
+def prefixFlush (d : Driver) : List Step := if d = .sci then [ { act := .flush } ] else []
+
 /-- serial `send`: EnableDeviceType is emitted directly through the protocol (no second connCheck) -/
 def serialSend (c : Cmd) (d : Driver) : List Step :=
   [ { act := .connCheck }, { act := .acq } ] ++
-  (if c.frame.dt = 0 then [] else serialCommand d (edtFrame c.frame.dt) [Act.rel]) ++
+  (if c.frame.dt = 0 then [] else prefixFlush d ++ serialCommand d (edtFrame c.frame.dt) [Act.rel]) ++
   serialSendBody d c [Act.rel] ++ [ { act := .rel } ]
 
 def mkTask (d : Driver) : Call → Task
